@@ -4,7 +4,7 @@
    synthesis level: conv_transpose1d with stride 2 and the reconstruction filters (not flipped), then dropping L-2
    entries on the left and what exceeds the finer level's length on the right.
    Here  f k = dec[L-1-k]  (the flipped decomposition filter that conv1d sees)  and  g k = rec[k]. *)
-From MrVerif Require Import Base.Prelude Base.StarRing Base.Sums Model.OpAlg.
+From MrVerif Require Import Base.Prelude Base.StarRing Base.Sums Model.OpAlg Model.ZeroPad Model.ElemOps.
 Local Open Scope nat_scope.
 
 Section Wavelet.
@@ -53,18 +53,39 @@ Section Wavelet.
                   (dwt1 L n flo fhi glo ghi)
     end.
 
+  (* ---- two dimensions (ptwt.wavedec2 / waverec2: conv2d with the outer products of the filters = the 1-D transform along the last
+          axis followed by the 1-D transform along the first; image flattened row-major (n1, n2)) ---- *)
+  (* one band: filter pair (fa, ga) along the rows index (axis -2), (fb, gb) along the columns index (axis -1) *)
+  Definition band2_op (L n1 n2 : nat) (fa ga fb gb : vec) : linop :=
+    comp (along 1 (wlen L n2) (band_op L n1 (wlen L n1) fa ga)) (along n1 1 (band_op L n2 (wlen L n2) fb gb)).
+  (* one level: [aa; ad; da; dd] = ptwt's (ll, (lh, hl, hh)) with lh = outer(hi, lo): hi along axis -2, lo along axis -1 *)
+  Definition dwt2 (L n1 n2 : nat) (flo fhi glo ghi : vec) : linop :=
+    vstack (band2_op L n1 n2 flo glo flo glo)
+      (vstack (band2_op L n1 n2 fhi ghi flo glo)
+        (vstack (band2_op L n1 n2 flo glo fhi ghi) (band2_op L n1 n2 fhi ghi fhi ghi))).
+  Fixpoint wavedec2_op (level : nat) (L n1 n2 : nat) (flo fhi glo ghi : vec) : linop :=
+    match level with
+    | O => idop (R:=R) (n1 * (n2 * 1))
+    | S l => let m1 := wlen L n1 in let m2 := wlen L n2 in
+             comp (bdiag (wavedec2_op l L m1 m2 flo fhi glo ghi) (idop (R:=R) (1 * (m1 * m2) + (1 * (m1 * m2) + 1 * (m1 * m2)))))
+                  (dwt2 L n1 n2 flo fhi glo ghi)
+    end.
+
   (* the filter-bank condition of orthogonal wavelets: rec = reversed (conjugated) dec, i.e. g = conj f *)
   Definition filters_match (L : nat) (f g : vec) : Prop := forall k, (k < L)%nat -> g k = kconj (f k).
 End Wavelet.
 
 Arguments zext {R}. Arguments analysis {R}. Arguments synthesis {R}. Arguments band_op {R}. Arguments bdiag {R}.
 Arguments dwt1 {R}. Arguments wavedec_op {R}. Arguments filters_match {R}.
+Arguments band2_op {R}. Arguments dwt2 {R}. Arguments wavedec2_op {R}.
 
 (* ---- executable helpers for the correspondence (filters as integer lists; pywt's float64 coefficients are dyadic
         rationals and are scaled to integers by the harness) ---- *)
 Definition zvec (l : list Z) : nat -> Z := fun i => nth i l 0%Z.
 Definition wavedec_Z (level L n : nat) (dec_lo dec_hi rec_lo rec_hi : list Z) : linop ZRing :=
   wavedec_op (R:=ZRing) level L n (zvec (rev dec_lo)) (zvec (rev dec_hi)) (zvec rec_lo) (zvec rec_hi).
+Definition wavedec2_Z (level L n1 n2 : nat) (dec_lo dec_hi rec_lo rec_hi : list Z) : linop ZRing :=
+  wavedec2_op (R:=ZRing) level L n1 n2 (zvec (rev dec_lo)) (zvec (rev dec_hi)) (zvec rec_lo) (zvec rec_hi).
 Definition dense_fwd (A : linop ZRing) : list (list Z) :=
   map (fun j => map (fun i => fwd A (delta (R:=ZRing) j) i) (seq 0 (ran A))) (seq 0 (dom A)).
 Definition dense_adj (A : linop ZRing) : list (list Z) :=
